@@ -90,9 +90,9 @@ def main():
     if out.strip():
         print("/repo not clean, abort:", out)
         return 2
-    rc, out = sh("git -C /repo apply --3way %s" % patch)
+    rc, out = sh("git -C /repo apply %s" % patch)
     if rc != 0:
-        rc, out = sh("git -C /repo apply %s" % patch)
+        rc, out = sh("git -C /repo apply --3way %s" % patch)
     if rc != 0:
         print("patch does not apply to current /repo:", out[-800:])
         meta["applies_to_head"] = False
@@ -122,7 +122,7 @@ def main():
                     break
             meta["caught_by"] = ("./check %s --tier %s" % (a.pid, caught)) if caught else "NOT CAUGHT"
         finally:
-            sh("git -C /repo checkout -- . && git -C /repo clean -fdq")
+            sh("git -C /repo reset -q --hard HEAD && git -C /repo clean -fdq")
     os.makedirs(dst, exist_ok=True)
     shutil.copy(patch, os.path.join(dst, "patch.diff"))
     for f in a.demo_files:
